@@ -197,6 +197,17 @@ class DENMTransmissionManagement:
         self.vehicle_data = vehicle_data
         self.denm_coder = denm_coder
         self.sequence_number = 0
+        self._sequence_number_lock = threading.Lock()
+
+    def _next_sequence_number(self) -> int:
+        """
+        Allocate the sequence number of the actionId of a new event: unique per
+        originating station, shared by all repetitions of the same event.
+        """
+        with self._sequence_number_lock:
+            sequence_number = self.sequence_number
+            self.sequence_number = (self.sequence_number + 1) % 65536
+        return sequence_number
 
     def request_denm_sending(self, denm_request: DENRequest) -> None:
         """
@@ -212,6 +223,8 @@ class DENMTransmissionManagement:
         """
         crw_denm = DecentralizedEnvironmentalNotificationMessage()
         crw_denm.fullfill_with_vehicle_data(self.vehicle_data)
+        crw_denm.denm["denm"]["management"]["actionId"][
+            "sequenceNumber"] = self._next_sequence_number()
         crw_denm.fullfill_with_collision_risk_warning(denm_request)
         self.transmit_denm(crw_denm)
 
@@ -225,9 +238,12 @@ class DENMTransmissionManagement:
             DENM Request object.
         """
         transmission_time = 0
+        sequence_number = self._next_sequence_number()
         while transmission_time < denm_request.time_period:
             new_denm = DecentralizedEnvironmentalNotificationMessage()
             new_denm.fullfill_with_vehicle_data(self.vehicle_data)
+            new_denm.denm["denm"]["management"]["actionId"][
+                "sequenceNumber"] = sequence_number
             new_denm.fullfill_with_denrequest(denm_request)
             self.transmit_denm(new_denm)
             time.sleep(denm_request.denm_interval / 1000)
